@@ -112,6 +112,50 @@ def cdevobs(d):
         "None" if rsp is None else "(Some %s)" % clist([cobs(x) for x in rsp]),
         cbool(got), cbool(conn), cbool(scanned), cbool(reported), ts, last)
 
+def capi_case(ops, res):
+    ops_l, outs = [], []
+    for op, st in zip(ops, res["steps"]):
+        if op[0] == "parse":
+            ops_l.append("ApiParse %s" % cbytes(bytes.fromhex(op[1])))
+            outs.append("AObsParse (%s)" % ("ObsOk %s" % clist([cobs(x) for x in st["out"]]) if "out" in st else "ObsRaise %s" % cexn(st["exc"])))
+        elif op[0] == "set":
+            _, i, j, attr, val = op
+            if attr == "company":
+                ops_l.append("ApiSetCompany %s %s %d" % (C.cnat(i), C.cnat(j), val))
+            else:
+                ops_l.append("ApiSet%s %s %s %s" % ("Name" if attr == "name" else "Data", C.cnat(i), C.cnat(j), cbytes(bytes.fromhex(val))))
+            outs.append("AObsNone")
+        else:
+            ops_l.append("ApiSerialise %s" % C.cnat(op[1]))
+            outs.append("AObsBytes (%s)" % ("ObsOk %s" % cbytes(bytes.fromhex(st["bytes"])) if "bytes" in st else "ObsRaise %s" % cexn(st["exc"])))
+    return "(%s, %s, %s)" % (ctable(res["urls"]), clist(ops_l), clist(outs))
+
+
+def gen_api_case(rng, x, ref):
+    """parse x / edit every record that has a public setter / parse x again / serialise both / parse a
+    third time, edit that one, serialise all three.  `ref` = the parse of x in a clean process."""
+    hx_ = x.hex()
+    ops = [["parse", hx_]]
+    if "out" not in ref:
+        return ops + [["parse", hx_]]
+    def edits(i):
+        out = []
+        for j, o in enumerate(ref["out"]):
+            if o[0] in (0x08, 0x09):
+                out.append(["set", i, j, "name", rand_bytes(rng, rng.choice([0, 1, 3, 8])).hex()])
+            elif o[0] == 0xFF:
+                if rng.random() < 0.7:
+                    out.append(["set", i, j, "company", rng.choice([0, 1, 0xFFFF, 0x10000, rng.randrange(65536)])])
+                if rng.random() < 0.7:
+                    out.append(["set", i, j, "data", rand_bytes(rng, rng.choice([0, 1, 4, 9])).hex()])
+        return out
+    ops += edits(0)
+    ops += [["parse", hx_], ["ser", 1], ["ser", 0], ["parse", hx_]]
+    ops += edits(2)
+    ops += [["ser", 1], ["ser", 2], ["ser", 0], ["parse", hx_], ["ser", 3]]
+    return ops
+
+
 def cseq_case(case, res):
     evs = [cevent(ev, st["joined"]) for ev, st in zip(case["events"], res["steps"]) if "joined" in st]
     outs = ["ObsOk %s" % cints(st["ret"]) if "ret" in st else "ObsRaise %s" % cexn(st.get("exc", "OtherExn")) for st in res["steps"]]
@@ -461,6 +505,14 @@ def run(ctx):
     for _ in range(4000 if T else 450):
         seq_in.append(gen_seq_random(rng, seeds))
     rq = C.run_impl("C15.py", {"seq": seq_in})["seq"]
+    # operation sequences on the API: parse / edit through the setters / parse again / serialise
+    api_x = [bytes.fromhex(h) for h in ("0909546573744e616d65", "0908546573744e616d65", "0bff341254657374446174610201060308414243", "020106", "0324fffe", "02010605ff34120102")]
+    named = [b for b in seeds if any(t in (0x08, 0x09, 0xFF) for t in b[1:2]) or (0xFF in b or 0x09 in b or 0x08 in b)]
+    rng.shuffle(named)
+    api_x += named[:(1200 if T else 110)] + [rand_tlv(rng)[:31] for _ in range(300 if T else 40)]
+    api_ref = C.run_impl("C15.py", {"parse": [b.hex() for b in api_x]})["parse"]     # clean process
+    api_in = [gen_api_case(rng, x, r) for x, r in zip(api_x, api_ref)]
+    ra = C.run_impl("C15.py", {"api": api_in})["api"]                               # ONE process for all sequences
     # CPython codec facts
     dec_in = [bytes([a]) for a in range(256)]
     LEADS = [0x00, 0x41, 0x7F, 0x80, 0xBF, 0xC0, 0xC1, 0xC2, 0xDF, 0xE0, 0xE1, 0xEC, 0xED, 0xEE, 0xEF, 0xF0, 0xF1, 0xF3, 0xF4, 0xF5, 0xFF]
@@ -537,6 +589,29 @@ def run(ctx):
             report(cls, "on_device_found raised %s during a sequence of advertisements (step %d)" % (last["exc"], len(rq[i]["steps"])),
                    {"op": "seq", "case": c2, "kind": "systematic" if i < n_seq_sys else "random"},
                    expected="no exception for any sequence", observed=last["exc"])
+    # API sequences: every parse of x returns what a parse of x returns in a clean process, whatever
+    # was done to records returned by earlier parses; a list nobody edited serialises as in the clean process
+    n_api_parse = n_api_edits = 0
+    for i, ops in enumerate(api_in):
+        ref, x = api_ref[i], api_x[i]
+        edited, k, bad = set(), 0, None
+        for op, st in zip(ops, ra[i]["steps"]):
+            if op[0] == "parse":
+                n_api_parse += 1
+                if st.get("out") != ref.get("out") or st.get("exc") != ref.get("exc"):
+                    bad = ("from_bytes(x) after operations on earlier results differs from from_bytes(x) in a fresh process", ref.get("out", ref.get("exc")), st.get("out", st.get("exc")))
+                    break
+                if "out" in st:
+                    k += 1
+            elif op[0] == "set":
+                edited.add(op[1]); n_api_edits += 1
+            elif op[1] not in edited and st.get("bytes") != ref.get("reser"):
+                bad = ("from_bytes(x).to_bytes() of a list that was never edited differs from the fresh-process value", ref.get("reser"), st.get("bytes", st.get("exc")))
+                break
+        if bad:
+            report("api-sequence", bad[0], {"op": "api", "x": x.hex(), "ops": shrink_api(ops, x) if seen_classes.get("api-sequence", 0) < 1 else ops},
+                   expected=bad[1], observed=bad[2])
+    ctx.cov["api_sequences"] = {"sequences": len(api_in), "parses": n_api_parse, "edits_through_setters": n_api_edits}
     # what is reported when (plain scans: updates=False, no filter, so the returned list is
     # exactly what the timeout sweep reports): a device is returned exactly once, by the first
     # call after which it has a scan response or that is made > 500 ms after it was first stored
@@ -624,6 +699,8 @@ def run(ctx):
     bad_s, logs_s = C.run_cases(PID, "seq", PRE, "option N * bool * url_table * list event * list (obs_out (list N)) * list (N * option dev_obs)",
                                 sterms, "check_scan", shard=120)
     bad_s = [sidx[i] for i in bad_s]
+    aterms = [capi_case(ops, ra[i]) for i, ops in enumerate(api_in)]
+    bad_a, logs_a = C.run_cases(PID, "api", PRE, "url_table * list api_op * list api_obs", aterms, "check_api", shard=60)
     rows = ["(%d, %s)" % (a, cints(ru["rows"][a])) for a in range(256)]
     dterms = ["(%s, %s)" % (cbytes(b), C.copt(ru["decode"][i], cints)) for i, b in enumerate(dec_in)]
     eterms = ["(%s, %s)" % (cints(c), C.copt(ru["encode"][i], lambda h: cbytes(bytes.fromhex(h)))) for i, c in enumerate(enc_in)]
@@ -631,8 +708,8 @@ def run(ctx):
     bad_d, logs_d = C.run_cases(PID, "utf8dec", PRE, "bytes * option text", dterms, "check_utf8_decode", shard=1600)
     bad_e, logs_e = C.run_cases(PID, "utf8enc", PRE, "text * option bytes", eterms, "check_utf8_encode", shard=600)
     ctx.notes += logs_s[:2] + logs_p[:2] + logs_w[:2] + logs_b[:2] + logs_r[:1] + logs_d[:1] + logs_e[:1]
-    ctx.log("correspondence: scan sequences %d/%d bad, parse %d/%d bad (%d individual cases + %d rows of 256), build %d/%d bad, utf8 rows %d/256, decode %d/%d, encode %d/%d bad"
-            % (len(bad_s), len(sterms), len(bad_p), len(pterms) + 256 * len(rterms), len(pterms), len(rterms), len(bad_b), len(bterms), len(bad_r), len(bad_d), len(dterms), len(bad_e), len(eterms)))
+    ctx.log("correspondence: api sequences %d/%d bad, scan sequences %d/%d bad, parse %d/%d bad (%d individual cases + %d rows of 256), build %d/%d bad, utf8 rows %d/256, decode %d/%d, encode %d/%d bad"
+            % (len(bad_a), len(aterms), len(bad_s), len(sterms), len(bad_p), len(pterms) + 256 * len(rterms), len(pterms), len(rterms), len(bad_b), len(bterms), len(bad_r), len(bad_d), len(dterms), len(bad_e), len(eterms)))
 
     # ---- coverage --------------------------------------------------------------------------
     per_tag = {}
@@ -698,13 +775,17 @@ def run(ctx):
                               C.source_tie("whad/ble/profile/attribute.py", 513, 600),
                               C.source_tie("whad/hub/ble/bdaddr.py", 1, 106),
                               C.source_tie("whad/ble/scanning.py", 19, 401)]
-    ctx.cov["correspondence"] = {"scan_sequences": len(sterms), "scan_sequences_bad": len(bad_s), "parse_cases": len(pterms) + 256 * len(rterms), "parse_rows_of_256": len(rterms), "parse_bad": len(bad_p), "build_cases": len(bterms), "build_bad": len(bad_b),
+    ctx.cov["correspondence"] = {"api_sequences": len(aterms), "api_sequences_bad": len(bad_a), "scan_sequences": len(sterms), "scan_sequences_bad": len(bad_s), "parse_cases": len(pterms) + 256 * len(rterms), "parse_rows_of_256": len(rterms), "parse_bad": len(bad_p), "build_cases": len(bterms), "build_bad": len(bad_b),
                                  "utf8_rows_bad": len(bad_r), "utf8_decode_bad": len(bad_d), "utf8_encode_bad": len(bad_e)}
 
     # ---- verdict ------------------------------------------------------------------------------
-    if (bad_s or bad_p or bad_b or bad_r or bad_d or bad_e or not proofs_ok) and not ctx.violations:
+    if (bad_a or bad_s or bad_p or bad_b or bad_r or bad_d or bad_e or not proofs_ok) and not ctx.violations:
         first, what = None, None
-        if bad_s:
+        if bad_a:
+            i = bad_a[0]
+            first = {"op": "api", "x": api_x[i].hex(), "ops": api_in[i], "impl": ra[i]["steps"]}
+            what = "correspondence C15.Model.api_run vs parse/edit/parse/serialise sequences on the real API (%d of %d disagree)" % (len(bad_a), len(aterms))
+        elif bad_s:
             i = bad_s[0]
             first = {"op": "seq", "case": seq_in[i], "impl": {k: v for k, v in rq[i].items() if k != "urls"}}
             what = "correspondence C15.Model.scan vs AdvertisingDevicesDB.on_device_found (%d of %d sequences disagree)" % (len(bad_s), len(sterms))
@@ -723,7 +804,7 @@ def run(ctx):
             what = "Lib/Utf8 vs CPython's utf-8 codec"
         else:
             what = "proof obligations of theories/C15: " + detail.splitlines()[0][:200]
-        ctx.broken_obligation(what, detail if not proofs_ok else "\n".join(logs_s + logs_p + logs_w + logs_b + logs_r + logs_d + logs_e), first)
+        ctx.broken_obligation(what, detail if not proofs_ok else "\n".join(logs_a + logs_s + logs_p + logs_w + logs_b + logs_r + logs_d + logs_e), first)
 
 
 def shrink_parse(b, cls):
@@ -753,6 +834,37 @@ def shrink_seq(case, cls):
             break
         res = C.run_impl("C15.py", {"seq": cands})["seq"]
         nxt = [c for c, r in zip(cands, res) if r["steps"] and r["steps"][-1].get("exc") == cls]
+        if not nxt:
+            break
+        cur = nxt[0]
+    return cur
+
+
+def api_violation(ops, steps, ref):
+    edited = set()
+    for op, st in zip(ops, steps):
+        if op[0] == "parse":
+            if st.get("out") != ref.get("out") or st.get("exc") != ref.get("exc"):
+                return True
+        elif op[0] == "set":
+            edited.add(op[1])
+        elif op[1] not in edited and st.get("bytes") != ref.get("reser"):
+            return True
+    return False
+
+
+def shrink_api(ops, x):
+    """Drop edit / serialise operations while the sequence still violates the oracle."""
+    ref = C.run_impl("C15.py", {"parse": [x.hex()]})["parse"][0]
+    cur = ops
+    for _ in range(6):
+        cands = [cur[:i] + cur[i + 1:] for i in range(len(cur)) if cur[i][0] != "parse"]
+        # dropping a trailing parse is allowed too
+        cands += [cur[:-1]] if cur and cur[-1][0] == "parse" and len(cur) > 1 else []
+        if not cands:
+            break
+        res = [C.run_impl("C15.py", {"api": [c]})["api"][0] for c in cands[:8]]
+        nxt = [c for c, r in zip(cands, res) if api_violation(c, r["steps"], ref)]
         if not nxt:
             break
         cur = nxt[0]
@@ -806,6 +918,14 @@ def replay(payload):
         print("AdvDataFieldList.from_bytes now gives:", {k: v for k, v in r.items() if k != "urls"})
         bad = ("exc" in r and r["exc"] not in ("AdvDataError", "AdvDataFieldListOverflow"))
         print("property holds on this case" if not bad else "property STILL violated: %s escapes" % r["exc"])
+        return 1 if bad else 0
+    if case.get("op") == "api":
+        ref = C.run_impl("C15.py", {"parse": [case["x"]]})["parse"][0]
+        r = C.run_impl("C15.py", {"api": [case["ops"]]})["api"][0]
+        for op, st in zip(case["ops"], r["steps"]):
+            print(op, "->", st)
+        bad = api_violation(case["ops"], r["steps"], ref)
+        print("property STILL violated (a later parse / untouched list differs from the fresh-process parse)" if bad else "property holds on this sequence")
         return 1 if bad else 0
     if case.get("op") == "seq":
         r = C.run_impl("C15.py", {"seq": [case["case"]]})["seq"][0]
